@@ -1,6 +1,8 @@
 import Goyang.Lemmas.PositionsSem
 import Goyang.Lemmas.PositionsAst
 import Goyang.Lemmas.PositionsTypes
+import Goyang.Lemmas.PositionsWho
+import Goyang.Lemmas.PositionsTypesWho
 import Goyang.Lemmas.Uses
 import Goyang.Gen.AstSchema
 /-
@@ -13,7 +15,29 @@ bad."
 The lexer / parser part (what the position of a statement *is*) is Props/C16.lean.  Here the
 positions are the `file`/`line`/`col` fields of the statements handed to the resolver model
 (`Goyang.Model.processAll`) and to the AST builder model (`Goyang.Model.Ast.build`).
-Specification: Goyang/Spec/Positions.lean.
+Specification: Goyang/Spec/Positions.lean (`Names`: entry and type layer classes) and
+Goyang/Spec/PositionsWho.lean (`Who`: the classes of the resolver's own stages).
+
+What is proved, for every registry, every option set and the assembled pipeline (`plugFull`), no
+hypothesis left:
+ * `pipeline_positions_are_statement_starts`: every positioned error is a statement start;
+ * `pipeline_positions_name_the_statement` (`Names`): unknown-group ⇒ the `uses`; list attributes ⇒
+   that substatement; tristate ⇒ the holder; type / range / length / enum errors ⇒ that statement;
+ * `pipeline_positions_who` (`Names` and `Who`), with one named corollary per class:
+   `duplicate_key_position` (the PARENT statement, which has a data definition substatement),
+   `duplicate_node_position` (the `grouping` of a `uses`, the `augment`, the included (sub)module
+   statement), `augment_not_found_position` (an `augment` statement), `deviate_unknown_kind_position`
+   (the `deviation` statement holding the `deviate` of unknown kind), `deviation_error_position` (the
+   top statement of the deviating module, holding a `deviation` with a `deviate` of the kind the
+   class belongs to); `processFiles_positions_who` from the files.
+What remains outside the theorems (checked by the fault injector corr-c16sem and by C07's
+theorems only): for `duplicate-key`, WHICH two children collide (the site lemma
+`duplicate_key_iff_child_exists` says: exactly when a child of that name exists); for
+`augment-not-found` / `duplicate-node` of an augment, that the statement named is the augment whose
+own path failed / whose own children collided (`Goyang.Props.C07.failed_attempt_errors`,
+`application_errors`, `loop_error_set` describe the error set of the loop per attempt; here only "an
+`augment` statement of a loaded module" is proved); for the deviation classes, WHICH of several
+`deviation` statements of the module (the model, like Go, reports the module statement).
 -/
 namespace Goyang.Props.C16Sem
 open Goyang.Model Goyang.Spec.Positions Goyang.Lemmas.PositionsSem
@@ -206,6 +230,142 @@ theorem processFiles_positions (opts : Opts) (files : List SrcFile) (out : Outco
     obtain ⟨f, hf, htop⟩ := Goyang.Lemmas.PositionsTypes.loadFiles_mods files m hm
     exact ⟨f, hf, m.stmt, htop, s, hw, hat, hn⟩
 
+/-! ## Resolver: WHICH statement the errors of the resolver's own stages name
+
+`Names` leaves the classes of the resolver's own stages unconstrained.  `Who reg`
+(Goyang/Spec/PositionsWho.lean) says which statement they name, as the (frozen) model does it —
+which is what the Go code does (`Source(e.Node)` / `Source(oe.Node)` / `Source(a.Node)` / the
+deviating module):
+
+ * `duplicate-key`: the PARENT statement under which a data definition substatement could not be
+   added (not the second of the two colliding children: `Entry.add` reports `Source(e.Node)`);
+ * `duplicate-node`: the statement whose children were being merged in — the `grouping` a `uses`
+   refers to, the `augment` statement, the `module` / `submodule` statement of an included submodule;
+ * `augment-not-found`: the `augment` statement that could not be applied;
+ * `deviate-unknown-kind`: the `deviation` statement holding a `deviate` of unknown kind;
+ * the positioned classes of the deviation stage (`devStageClasses`): the top statement of the
+   deviating (sub)module, which holds a `deviation` statement with a `deviate` of the kind the
+   class belongs to.
+
+Proof: a second traversal of the whole pipeline (Lemmas/PositionsWho.lean) with a stronger
+invariant (the `node` of every entry IS a statement of a loaded module; results of `toEntry` have
+the converted statement, a cached (sub)module or the grouping of a `uses` as their source; pending
+augments come from `augment` statements), and the same for the plugged layers
+(Lemmas/PositionsTypesWho.lean). -/
+
+/-- A plug that reports no errors satisfies the assumption also for `NamesW reg`. -/
+theorem errorfree_plug_ok_who (reg : Registry) (plug : Plug)
+    (h1 : ∀ root scope t, (plug.tres.resolve reg root scope t).2 = []) (h2 : plug.identityErrs reg = [])
+    (h3 : plug.typedefErrs reg = []) : PlugPositionsAt (NamesW reg) reg plug :=
+  errorfree_plug_ok _ reg plug h1 h2 h3
+
+/-- Every positioned error returned by `Modules.Process` stands at the start of a statement `s` of
+a loaded module that its class names, for ALL classes of the resolver: `Names` (entry and type
+layer) and `Who reg` (duplicate keys and nodes, augment targets, deviations) — provided the plugged
+layers keep the discipline (`plugFull` does: `plugFull_keeps_positions_who`). -/
+theorem semantic_positions_who (reg : Registry) (opts : Opts) (plug : Plug)
+    (hplug : PlugPositionsAt (NamesW reg) reg plug) :
+    ∀ e ∈ (processAll reg opts plug).errors, Positioned e →
+      ∃ s, StmtOf reg s ∧ At e s ∧ Names e.cls s ∧ Who reg e.cls s := by
+  intro e he hp
+  obtain ⟨s, h1, h2, h3, h4⟩ :=
+    Goyang.Lemmas.PositionsWho.processAll_errors_ok (Goyang.Lemmas.PositionsWho.sites_namesW reg) hplug opts e he hp
+  exact ⟨s, h1, h2, h3, h4⟩
+
+/-- The type, typedef and identity layers of the pipeline keep the discipline for `NamesW reg` (in
+particular they never report one of the classes `Who` speaks about). -/
+theorem plugFull_keeps_positions_who (reg : Registry) : PlugPositionsAt (NamesW reg) reg (plugFull reg) :=
+  Goyang.Lemmas.PositionsTypesWho.plugFull_positionsW reg
+
+/-- `Modules.Process` with all layers in place, no assumption left: every positioned error stands
+at the statement its class names, for all classes. -/
+theorem pipeline_positions_who (reg : Registry) (opts : Opts) :
+    ∀ e ∈ (processAll reg opts (plugFull reg)).errors, Positioned e →
+      ∃ s, StmtOf reg s ∧ At e s ∧ Names e.cls s ∧ Who reg e.cls s :=
+  semantic_positions_who reg opts (plugFull reg) (plugFull_keeps_positions_who reg)
+
+/-- Duplicate key ⇒ the PARENT: the error stands at a statement of a loaded module that has a data
+definition substatement (`keyKws`: the keywords `ToEntry` adds to the parent's `Dir`). -/
+theorem duplicate_key_position (reg : Registry) (opts : Opts) (e : Err)
+    (he : e ∈ (processAll reg opts (plugFull reg)).errors) (hp : Positioned e) (hc : e.cls = "duplicate-key") :
+    ∃ s, StmtOf reg s ∧ At e s ∧ ∃ c ∈ s.subs, c.kw ∈ keyKws := by
+  obtain ⟨s, h1, h2, _, h4⟩ := pipeline_positions_who reg opts e he hp
+  exact ⟨s, h1, h2, h4.1 hc⟩
+
+/-- Duplicate node ⇒ the statement whose children were merged in: a `grouping` (through `uses`), an
+`augment`, or a `module` / `submodule` statement (through `include`; `TopOf`: the top statement of a
+loaded (sub)module, for registries holding other statements). -/
+theorem duplicate_node_position (reg : Registry) (opts : Opts) (e : Err)
+    (he : e ∈ (processAll reg opts (plugFull reg)).errors) (hp : Positioned e) (hc : e.cls = "duplicate-node") :
+    ∃ s, StmtOf reg s ∧ At e s ∧ (s.kw = "grouping" ∨ s.kw = "augment" ∨ IsModKw s.kw ∨ TopOf reg s) := by
+  obtain ⟨s, h1, h2, _, h4⟩ := pipeline_positions_who reg opts e he hp
+  exact ⟨s, h1, h2, h4.2.1 hc⟩
+
+/-- Augment target not found ⇒ an `augment` statement. -/
+theorem augment_not_found_position (reg : Registry) (opts : Opts) (e : Err)
+    (he : e ∈ (processAll reg opts (plugFull reg)).errors) (hp : Positioned e) (hc : e.cls = "augment-not-found") :
+    ∃ s, StmtOf reg s ∧ At e s ∧ s.kw = "augment" := by
+  obtain ⟨s, h1, h2, _, h4⟩ := pipeline_positions_who reg opts e he hp
+  exact ⟨s, h1, h2, h4.2.2.1 hc⟩
+
+/-- Unknown kind of deviate ⇒ the `deviation` statement that holds the `deviate` substatement whose
+argument is none of not-supported / add / replace / delete. -/
+theorem deviate_unknown_kind_position (reg : Registry) (opts : Opts) (e : Err)
+    (he : e ∈ (processAll reg opts (plugFull reg)).errors) (hp : Positioned e) (hc : e.cls = "deviate-unknown-kind") :
+    ∃ s, StmtOf reg s ∧ At e s ∧ s.kw = "deviation" ∧
+      ∃ dv ∈ s.subs, dv.kw = "deviate" ∧ deviateKinds.contains dv.arg = false := by
+  obtain ⟨s, h1, h2, _, h4⟩ := pipeline_positions_who reg opts e he hp
+  exact ⟨s, h1, h2, h4.2.2.2.1 hc⟩
+
+/-- The positioned errors of the deviation stage ⇒ the top statement of the deviating (sub)module,
+which holds a `deviation` statement with a `deviate` substatement of the kind the class belongs to
+(`devKindOf`: `add` for a second / an already existing default, `not-supported` for a target without
+parent or already removed, `delete` for the default errors of delete). -/
+theorem deviation_error_position (reg : Registry) (opts : Opts) (e : Err)
+    (he : e ∈ (processAll reg opts (plugFull reg)).errors) (hp : Positioned e) (hc : e.cls ∈ devStageClasses) :
+    ∃ s, StmtOf reg s ∧ At e s ∧ TopOf reg s ∧
+      ∃ dv ∈ s.subs, dv.kw = "deviation" ∧ ∃ ds ∈ dv.subs, ds.kw = "deviate" ∧ ds.arg = devKindOf e.cls := by
+  obtain ⟨s, h1, h2, _, h4⟩ := pipeline_positions_who reg opts e he hp
+  exact ⟨s, h1, h2, h4.2.2.2.2 hc⟩
+
+/-- From the files, all classes: every positioned error of `processFiles` stands at a statement `s`
+occurring in one of the given files, the one its class names (`Names` and `Who`). -/
+theorem processFiles_positions_who (opts : Opts) (files : List SrcFile) (out : Outcome)
+    (h : processFiles opts files = .ok out) :
+    ∀ e ∈ out.errors, Positioned e →
+      ∃ f ∈ files, ∃ top ∈ f.stmts, ∃ s, Within s top ∧ At e s ∧ Names e.cls s ∧ Who (loadFiles files) e.cls s := by
+  unfold processFiles at h
+  split at h
+  · cases h
+  · simp only [Except.ok.injEq] at h
+    subst h
+    intro e he hp
+    obtain ⟨s, ⟨m, hm, hw⟩, hat, hn, hwho⟩ := pipeline_positions_who (loadFiles files) opts e he hp
+    obtain ⟨f, hf, htop⟩ := Goyang.Lemmas.PositionsTypes.loadFiles_mods files m hm
+    exact ⟨f, hf, m.stmt, htop, s, hw, hat, hn, hwho⟩
+
+/-! ### the sites themselves -/
+
+/-- `Entry.add` exactly: when a child of that name exists the entry gains one error, `duplicate-key`
+at its own source statement, and the new child is dropped; otherwise no error and the child is
+appended. -/
+theorem duplicate_key_iff_child_exists (e : Entry) (k : String) (v : Entry) :
+    ((e.child? k).isSome = true → (e.add k v).d.errors = e.d.errors ++ [Err.at_ e.d.node "duplicate-key"] ∧
+        (e.add k v).dir = e.dir) ∧
+    ((e.child? k).isSome = false → (e.add k v).d.errors = e.d.errors ∧ (e.add k v).dir = e.dir ++ [v]) := by
+  unfold Entry.add
+  cases hk : e.child? k with
+  | none => cases e; simp [Entry.withDir, Entry.d, Entry.dir]
+  | some x => cases e; simp [Entry.addErr, Entry.withD, Entry.d, Entry.dir]
+
+/-- While `ToEntry` converts the substatements of a statement `n`, the entry under construction keeps
+`n` as its source statement — so the `duplicate-key` error of `Entry.add` stands at `n`. -/
+theorem entry_under_construction_keeps_node (env : Env) (rec : Goyang.Lemmas.Tree.Rec) (root : Mod) (n : Stmt)
+    (sub : List Stmt) (visiting : List NodeId) (isMod : Bool) (fields : List String) (st : TState) :
+    (fields.foldl (Goyang.Lemmas.Tree.stepFn env rec root n sub visiting isMod) (Goyang.Lemmas.Tree.e0 root n, st)).1.d.node = n :=
+  Eq.trans (Goyang.Lemmas.PositionsWho.nodeKeep_fold_steps env rec root n sub visiting isMod fields _)
+    (Goyang.Lemmas.Tree.e0_data root n).2.2.2.1
+
 /-! ## AST builder -/
 
 section AstBuilder
@@ -332,6 +492,60 @@ example : (processAll regT {} plug).errors.map (fun e => (e.file, e.line, e.col,
 example : (processAll regT {} plug).errors.all (posOKb regT) = true := by decide +kernel
 example : (processAll regT {} plug).errors.all (posOKb regT) = true :=
   semantic_positions_check regT {} plug (errorfree_plug_ok _ regT plug (fun _ _ _ => rfl) rfl rfl)
+
+-- WHICH statement (`Who`): concrete module sets for each class of the resolver's own stages.
+def leafX (l c : Nat) : Stmt := st l c "leaf" "x" [st l (c + 9) "type" "string"]
+/-- `container c { leaf x …; leaf x …; }` at 4:3 -/
+def contK : Stmt := st 4 3 "container" "c" [leafX 5 5, leafX 6 5]
+def modK : Stmt := st 1 1 "module" "a" [st 2 3 "namespace" "urn:a", st 3 3 "prefix" "a", contK]
+def regK : Registry := (Registry.loadAll [modK]).1
+/-- `deviation /a:c/a:x { deviate frobnicate; }` at 7:3 -/
+def devD : Stmt := st 7 3 "deviation" "/a:c/a:x" [st 8 5 "deviate" "frobnicate"]
+def modD : Stmt :=
+  st 1 1 "module" "a" [st 2 3 "namespace" "urn:a", st 3 3 "prefix" "a", st 4 3 "container" "c" [leafX 5 5], devD]
+def regD : Registry := (Registry.loadAll [modD]).1
+
+-- the hypothesis of `semantic_positions_who` is satisfiable, and the whole pipeline evaluated by the
+-- kernel independently of the proofs gives: duplicate key ⇒ the PARENT container at 4:3 (not the
+-- second `leaf x` at 6:5); unknown kind of deviate ⇒ the `deviation` statement at 7:3
+example : PlugPositionsAt (NamesW regK) regK plug := errorfree_plug_ok_who regK plug (fun _ _ _ => rfl) rfl rfl
+example : (processAll regK {} plug).errors.map (fun e => (e.file, e.line, e.col, e.cls)) =
+    [("x.yang", 4, 3, "duplicate-key")] := by decide +kernel
+example : (processAll regD {} plug).errors.map (fun e => (e.file, e.line, e.col, e.cls)) =
+    [("x.yang", 7, 3, "deviate-unknown-kind")] := by decide +kernel
+-- `Who` says something: it holds of the container and fails of the second leaf; it holds of the
+-- deviation statement
+example : Who regK "duplicate-key" contK ∧ ¬ Who regK "duplicate-key" (leafX 6 5) := by
+  refine ⟨⟨fun _ => ⟨leafX 5 5, List.Mem.head _, by decide⟩, ?_, ?_, ?_, ?_⟩, ?_⟩
+  · intro h; exact absurd h (by decide)
+  · intro h; exact absurd h (by decide)
+  · intro h; exact absurd h (by decide)
+  · intro h; exact absurd h (by decide)
+  · intro h
+    obtain ⟨c, hc, hk⟩ := h.1 rfl
+    revert hk
+    have : c = st 6 14 "type" "string" := by simpa [leafX, st, Stmt.subs] using hc
+    subst this
+    decide
+example : Who regD "deviate-unknown-kind" devD := by
+  refine ⟨?_, ?_, ?_, fun _ => ⟨rfl, st 8 5 "deviate" "frobnicate", List.Mem.head _, rfl, by decide⟩, ?_⟩ <;>
+    intro h <;> exact absurd h (by decide)
+-- the merge site, evaluated: a grouping `g` (9:3) with a leaf `x` merged into a container that has a
+-- child `x` leaves `duplicate-node` at the grouping statement
+def grpE : Entry :=
+  .mk { name := "g", node := st 9 3 "grouping" "g" } [.mk { name := "x", kind := .leaf, hasDir := false } [] [] []] [] []
+def tgtE : Entry :=
+  .mk { name := "c", node := st 4 3 "container" "c" } [.mk { name := "x", kind := .leaf, hasDir := false } [] [] []] [] []
+example : (tgtE.merge none grpE).d.errors = [{ file := "x.yang", line := 9, col := 3, cls := "duplicate-node" }] := by
+  decide
+-- The augment and deviation stages go through `Entry.Find`, whose string functions the kernel does
+-- not evaluate; `#eval (processAll r {} plug).errors` gives, for
+--   module a { … container c { leaf x … } augment "/a:c" { leaf x … } augment "/a:nosuch" { leaf y … } }
+-- with the augments at 7:3 and 10:3: duplicate-node at 7:3 and augment-not-found at 10:3; and for
+--   module a { … container c { leaf x { type string; default "0"; } }
+--              deviation "/a:c/a:x" { deviate add { default "1"; } } }
+-- deviate-add-default-exists at 1:1 (the module statement; `devKindOf` of the class is `add`).
+-- The fault injector corr-c16sem checks these positions on the Go side.
 
 -- the assembled pipeline (`plugFull`): its theorems have no hypotheses.  On
 --   module a { … leaf x { type nosuch; } leaf y { type int8 { range "5..1"; } } leaf z { type string { length "a"; } } }
